@@ -49,6 +49,7 @@ type algStats struct {
 	Monitors                                                                                     []string
 	Samples                                                                                      []string
 	Notes                                                                                        []string
+	AirDkg                                                                                       airTraceStats
 }
 
 func scalarHex(s kyber.Scalar) string {
@@ -70,6 +71,8 @@ type algRun struct {
 	// skipNode: a node that is away (not polling) while the batch is signed: nothing is claimed about it (-1: nobody)
 	skipNode int
 	awayNode bool
+	// air: the abstract trace of every key-generation operation the machines handle (airdkg.go)
+	air *airTrace
 }
 
 func (a *algRun) emit(op, ob string) {
@@ -505,6 +508,9 @@ func runAlgDiff(outDir string, seed int64, tier string) {
 	fb, _ := os.Create(filepath.Join(outDir, "go_obs.txt"))
 	a := &algRun{st: &algStats{OutcomeHist: map[string]int{}}, ops: bufio.NewWriter(fo), obs: bufio.NewWriter(fb),
 		rng: rand.New(rand.NewSource(seed)), suit: bls12381.NewBLS12381Suite(nil).(pairing.Suite)}
+	fao, _ := os.Create(filepath.Join(outDir, "airdkg_ops.txt"))
+	fab, _ := os.Create(filepath.Join(outDir, "airdkg_obs.txt"))
+	a.air = newAirTrace(bufio.NewWriter(fao), bufio.NewWriter(fab))
 	type cfg struct{ n, t int }
 	cfgs := []cfg{{2, 2}, {3, 2}, {4, 3}, {5, 2}, {3, 3}}
 	if tier == "thorough" {
@@ -523,6 +529,7 @@ func runAlgDiff(outDir string, seed int64, tier string) {
 			a.mon("C01 harness: " + err.Error())
 			continue
 		}
+		c.airTrace = a.air
 		round, err := c.startDKG(cf.t)
 		if err != nil {
 			a.mon("C02 start_dkg " + tag + ": " + err.Error())
@@ -784,6 +791,10 @@ func runAlgDiff(outDir string, seed int64, tier string) {
 	a.obs.Flush()
 	fo.Close()
 	fb.Close()
+	a.air.flush()
+	fao.Close()
+	fab.Close()
+	a.st.AirDkg = a.air.st
 	if len(a.st.Notes) > 40 {
 		a.st.Notes = a.st.Notes[:40]
 	}
